@@ -56,6 +56,16 @@ func c04Pool() []poolVal {
 		// several lines, to nothing at all, or to a lone line break
 		{`["a\nb",""]`, types.NewXArray(types.NewXText("a\nb"), types.NewXText("")), false, 0},
 		{`["",null,"\n"]`, types.NewXArray(types.NewXText(""), nil, types.NewXText("\n"), types.NewXArray()), false, 0},
+		// objects shaped like what flows put into expressions: run results as classifiers and webhooks leave them behind
+		// (no extra at all, extra without / with empty / with filled intents and entities, extra of another shape)
+		{`result{}`, types.NewXObject(map[string]types.XValue{"name": types.NewXText("Intent"), "value": types.NewXText("book"), "category": types.NewXText("Success"), "created_on": types.NewXText("2018-07-06T12:30:00.123456Z"), "node_uuid": types.NewXText("a0000000-0000-4000-8000-001000100000")}), false, 0},
+		{`result{intents:[]}`, types.NewXObject(map[string]types.XValue{"name": types.NewXText("Intent"), "value": types.NewXText(""), "category": types.NewXText("Success"), "created_on": types.NewXText("2018-07-06T12:30:00.123456Z"), "node_uuid": types.NewXText("a0000000-0000-4000-8000-001000100000"),
+			"extra": types.NewXObject(map[string]types.XValue{"intents": types.NewXArray(), "entities": types.NewXObject(map[string]types.XValue{})})}), false, 0},
+		{`result{intents:[book]}`, types.NewXObject(map[string]types.XValue{"name": types.NewXText("Intent"), "value": types.NewXText("book"), "category": types.NewXText("Success"), "created_on": types.NewXText("2018-07-06T12:30:00.123456Z"), "node_uuid": types.NewXText("a0000000-0000-4000-8000-001000100000"),
+			"extra": types.NewXObject(map[string]types.XValue{"intents": types.NewXArray(types.NewXObject(map[string]types.XValue{"name": types.NewXText("book"), "confidence": num("0.9")}), types.NewXObject(map[string]types.XValue{"name": nil})),
+				"entities": types.NewXObject(map[string]types.XValue{"city": types.NewXArray(), "day": types.NewXArray(types.NewXObject(map[string]types.XValue{"value": types.NewXText("friday"), "confidence": num("1")}))})})}), false, 0},
+		{`result{extra:"text"}`, types.NewXObject(map[string]types.XValue{"name": types.NewXText("Hook"), "value": types.NewXText("200"), "category": types.NewXText("Success"), "created_on": types.NewXText("2018-07-06T12:30:00.123456Z"), "node_uuid": types.NewXText("a0000000-0000-4000-8000-001000100000"), "extra": types.NewXText("not an object")}), false, 0},
+		{`result{extra:{intents:"x"}}`, types.NewXObject(map[string]types.XValue{"name": types.NewXText("Hook"), "created_on": types.NewXText("2018-07-06T12:30:00.123456Z"), "node_uuid": types.NewXText("a0000000-0000-4000-8000-001000100000"), "extra": types.NewXObject(map[string]types.XValue{"intents": types.NewXText("x"), "entities": types.NewXArray(nil)})}), false, 0},
 		{`{"m":"a\nb","e":""}`, types.NewXObject(map[string]types.XValue{"m": types.NewXText("a\nb"), "e": types.NewXText(""), "n": nil, "l": types.NewXArray(types.NewXText("x\ny"), types.NewXText(""))}), false, 0},
 	}
 }
@@ -351,6 +361,19 @@ func c04Total(args []string) error {
 		for _, a := range reduced[:4] {
 			callOne(e, []poolVal{a, a, reduced[2], reduced[1]})
 			callOne(e, []poolVal{a, reduced[3], a, reduced[0], reduced[1]})
+		}
+		// the result-shaped objects as first argument next to small values (tests on results take a name and a number)
+		for _, d := range pool {
+			if !strings.HasPrefix(d.name, "result{") {
+				continue
+			}
+			small := []poolVal{pool[3], pool[1], pool[14], {`"book"`, types.NewXText("book"), false, 4}, pool[13], pool[25]}
+			for _, o := range small {
+				callOne(e, []poolVal{d, o})
+				for _, o2 := range small {
+					callOne(e, []poolVal{d, o, o2})
+				}
+			}
 		}
 		// shaped texts: a lead-in (sign, separator, scheme, quote, multi-byte character ...) followed by 0..13 digits or
 		// letters, alone and at each of the first three argument positions next to small values - string handling that
